@@ -71,10 +71,10 @@ PROPERTY JoinLimit
 ON_STEP = None      # set by a driver: callback(world, event) installed into every world (e.g. C08's key probe)
 
 
-def world(topology, seed, settings=None, suspend_join=False):
+def world(topology, seed, settings=None, suspend_join=False, dual_stack=False):
     t = TOPOLOGIES[topology]
     w = OnionWorld(seed=seed, names=t["names"], exits=t["exits"], origins=t["origins"], settings=settings,
-                   suspend_join=suspend_join)
+                   suspend_join=suspend_join, dual_stack=dual_stack)
     w.on_step = ON_STEP
     return w
 
@@ -91,9 +91,9 @@ PROFILES = {
 }
 
 
-def random_run(topology, seed, profile, steps, settings=None, max_circuits=3, goals=(1, 2, 3)):
+def random_run(topology, seed, profile, steps, settings=None, max_circuits=3, goals=(1, 2, 3), dual_stack=False):
     rng = random.Random(seed * 7919 + 17)
-    w = world(topology, seed, settings)
+    w = world(topology, seed, settings, dual_stack=dual_stack)
     w.auto_transports = rng.random() < 0.4
     prof = PROFILES[profile]
     origins = TOPOLOGIES[topology]["origins"]
